@@ -225,12 +225,13 @@ structure Ext (s s' : GState) : Prop where
     (s'.node i).tok = (s.node i).tok ∧ (s'.node i).fr = (s.node i).fr
   lsize : s.links.size ≤ s'.links.size
   lsame : ∀ i, i < s.links.size → (s'.link i).head = (s.link i).head ∧ (s'.link i).root = (s.link i).root
+  crash : s'.crash = s.crash
 
 theorem Ext.refl (s : GState) : Ext s s :=
-  ⟨Nat.le_refl _, fun _ _ => ⟨rfl, rfl, rfl, rfl⟩, Nat.le_refl _, fun _ _ => ⟨rfl, rfl⟩⟩
+  ⟨Nat.le_refl _, fun _ _ => ⟨rfl, rfl, rfl, rfl⟩, Nat.le_refl _, fun _ _ => ⟨rfl, rfl⟩, rfl⟩
 
 theorem Ext.trans {a b c : GState} (h1 : Ext a b) (h2 : Ext b c) : Ext a c := by
-  refine ⟨Nat.le_trans h1.size h2.size, ?_, Nat.le_trans h1.lsize h2.lsize, ?_⟩
+  refine ⟨Nat.le_trans h1.size h2.size, ?_, Nat.le_trans h1.lsize h2.lsize, ?_, h2.crash.trans h1.crash⟩
   · intro i hi
     obtain ⟨a1, a2, a3, a4⟩ := h1.same i hi
     obtain ⟨b1, b2, b3, b4⟩ := h2.same i (Nat.lt_of_lt_of_le hi h1.size)
@@ -315,7 +316,7 @@ theorem createLink_ok {consume : Bool} (s : GState) (hinv : GInv g T inp consume
         rw [hps] at hp
         exact (hinv.poss k hk p hp).same hsame l1 l2
     refine ⟨⟨?_, ?_, ?_, hinv.active, hinv.forActor, hinv.forShifter, hinv.accepted, hP⟩,
-      ⟨Nat.le_refl _, fun _ _ => ⟨rfl, rfl, rfl, rfl⟩, by simp, fun k _ => hlinkhr k⟩,
+      ⟨Nat.le_refl _, fun _ _ => ⟨rfl, rfl, rfl, rfl⟩, by simp, fun k _ => hlinkhr k, rfl⟩,
       by simpa using hil, ?_, ?_, by first | rfl | trivial, by first | rfl | trivial,
       by first | rfl | trivial, by first | rfl | trivial, by first | rfl | trivial,
       by intro h; simp at h, by first | rfl | trivial, by first | rfl | trivial⟩
@@ -366,7 +367,7 @@ theorem createLink_ok {consume : Bool} (s : GState) (hinv : GInv g T inp consume
         obtain ⟨l1, l2, _⟩ := hinv.links k hk'
         exact (hinv.poss k hk' p hp).same hsame l1 l2
     refine ⟨⟨?_, ?_, ?_, ?_, ?_, ?_, ?_, hP⟩, ⟨by rw [hsz]; exact Nat.le_refl _, fun k _ => hnf k, by rw [hlsz]; omega,
-        fun k hk => by rw [hlinkO k hk]; exact ⟨rfl, rfl⟩⟩,
+        fun k hk => by rw [hlinkO k hk]; exact ⟨rfl, rfl⟩, rfl⟩,
       by rw [hlsz]; omega, ?_, ?_, by first | rfl | trivial, by first | rfl | trivial,
       by first | rfl | trivial, by first | rfl | trivial, by first | rfl | trivial,
       by intro _; rw [hlinkN], by first | rfl | trivial, by first | rfl | trivial⟩
@@ -472,6 +473,46 @@ theorem replay_of_chain (hw : T.wf g = true) (s : GState) (root head pid : Nat) 
   have hst := hinv'.st
   simp only [hdrop] at hst
   exact ⟨_, r', hst, by rw [h4, hposeq]⟩
+
+/-- A reduction in the cell of a reachable node names a production of the grammar. -/
+theorem prod_of_reduce (hw : T.wf g = true) {consume : Bool} (s : GState) (hinv : GInv g T inp consume s)
+    (head pid : Nat) (hh : head < s.nodes.size) (hx : ∃ x, Action.reduce pid ∈ T.actions (s.node head).st x) :
+    ∃ pr, g.prod? pid = some pr := by
+  have hn := wf_pos hw
+  obtain ⟨st0, r0, hs0, ht0, _⟩ := (hinv.nodes head hh).reach
+  have hlt : (s.node head).st < T.n := by rw [← ht0]; exact hs0.top_lt hn
+  obtain ⟨x, hx⟩ := hx
+  obtain ⟨cell, hcellmem, _, hcell2⟩ := actions_mem hx
+  have hwf := (wf_state hw hlt).1 cell hcellmem _ hcell2
+  simp only at hwf
+  obtain ⟨pr, hpr, _⟩ := hwf
+  exact ⟨pr, hpr⟩
+
+/-- At the end of a reduction path the goto exists. -/
+theorem goto_of_chain (hw : T.wf g = true) {consume : Bool} (s : GState) (hinv : GInv g T inp consume s)
+    (root head pid : Nat) (pr : Prod) (hr : root < s.nodes.size) (hp : g.prod? pid = some pr)
+    (hc : Chain g T inp s root head pr.rhs.length)
+    (hx : ∃ x, Action.reduce pid ∈ T.actions (s.node head).st x) :
+    (T.goto (s.node root).st pr.lhs).isSome = true := by
+  have hn := wf_pos hw
+  obtain ⟨st, r, hs, ht, hpr⟩ := (hinv.nodes root hr).reach
+  obtain ⟨stk, r', h1, h2, h3, _⟩ := hc st r hs ht hpr
+  obtain ⟨x, hx⟩ := hx
+  have htop : topOf (stk ++ st) < T.n := h1.top_lt hn
+  rw [← h3] at hx
+  obtain ⟨cell, hcellmem, _, hcell2⟩ := actions_mem hx
+  have hwf := (wf_state hw htop).1 cell hcellmem _ hcell2
+  simp only at hwf
+  obtain ⟨pr', hpr', hback⟩ := hwf
+  rw [hp] at hpr'
+  simp only [Option.some.injEq] at hpr'
+  subst hpr'
+  obtain ⟨i, _, _, _, hgo⟩ :=
+    walk_back (g := g) (inp := inp) hn pr.rhs.reverse (topOf (stk ++ st)) (stk ++ st) r' pr.lhs hback h1 rfl
+  simp only [List.length_reverse] at hgo
+  have hdrop : (stk ++ st).drop pr.rhs.length = st := by rw [← h2]; simp
+  rw [hdrop, ht] at hgo
+  exact hgo
 
 /-- Frontier position: every active head stands at skipped position `P`. -/
 def APos (inp : Input) (s : GState) (P : Nat) : Prop :=
@@ -709,14 +750,15 @@ theorem parentsFold_ok {consume : Bool} {P : Nat} {head n st0 : Nat}
 /-- Changing only `crash`, `orderSens` or `traversed` keeps everything. -/
 theorem post_of_graph_eq {consume : Bool} {P : Nat} {s s' : GState} (h : GInv g T inp consume s)
     (hap : APos inp s P) (hn : s'.nodes = s.nodes) (hl : s'.links = s.links) (ha : s'.active = s.active)
-    (hf : s'.forActor = s.forActor) (hs : s'.forShifter = s.forShifter) (hc : s'.accepted = s.accepted) :
+    (hf : s'.forActor = s.forActor) (hs : s'.forShifter = s.forShifter) (hc : s'.accepted = s.accepted)
+    (hcr : s'.crash = s.crash) :
     Post g T inp consume P s s' := by
   have hnode : ∀ i, s'.node i = s.node i := by intro i; simp [GState.node, hn]
   have hlink : ∀ i, s'.link i = s.link i := by intro i; simp [GState.link, hl]
   refine ⟨h.graph_eq hn hl (by rw [ha]; exact h.active) (by rw [hf]; exact h.forActor)
     (by rw [hs]; exact h.forShifter) (by rw [hc]; exact h.accepted), ?_, ?_⟩
   · exact ⟨by rw [hn]; exact Nat.le_refl _, fun i _ => by rw [hnode]; exact ⟨rfl, rfl, rfl, rfl⟩,
-      by rw [hl]; exact Nat.le_refl _, fun i _ => by rw [hlink]; exact ⟨rfl, rfl⟩⟩
+      by rw [hl]; exact Nat.le_refl _, fun i _ => by rw [hlink]; exact ⟨rfl, rfl⟩, hcr⟩
   · exact ⟨fun x hx => by rw [ha] at hx; rw [hnode]; exact hap.1 x hx,
       fun x hx => by rw [hf] at hx; rw [hnode]; exact hap.2 x hx⟩
 
@@ -732,7 +774,7 @@ theorem pushNode_ok {consume : Bool} (s : GState) (hinv : GInv g T inp consume s
   have hlink : ∀ k, s'.link k = s.link k := fun k => rfl
   have hsz : s'.nodes.size = s.nodes.size + 1 := by simp [s']
   have hext : Ext s s' := ⟨by rw [hsz]; omega, fun k hk => by rw [hnodeO k hk]; exact ⟨rfl, rfl, rfl, rfl⟩,
-    Nat.le_refl _, fun k _ => ⟨rfl, rfl⟩⟩
+    Nat.le_refl _, fun k _ => ⟨rfl, rfl⟩, rfl⟩
   have hP : ∀ k, k < s'.links.size → ∀ p ∈ (s'.link k).poss, PossOK g T inp s' (s'.link k).head (s'.link k).root p := by
     intro k hk p hp
     obtain ⟨l1, l2, _⟩ := hinv.links k hk
@@ -826,7 +868,10 @@ theorem reductions_ok (hw : T.wf g = true) (consume : Bool) (P : Nat) :
       intro s head root pid kids st en pr hinv hap hh hr hpos htok hp hchain hx hk hkl
       simp only [reduce, hp]
       cases hg : T.goto (s.node root).st pr.lhs with
-      | none => exact post_of_graph_eq hinv hap rfl rfl rfl rfl rfl rfl
+      | none =>
+        have := goto_of_chain hw s hinv root head pid pr hr hp hchain hx
+        rw [hg] at this
+        cases this
       | some state =>
         simp only
         cases hah : s.headActive state with
@@ -891,7 +936,7 @@ theorem reductions_ok (hw : T.wf g = true) (consume : Bool) (P : Nat) :
               have hpost1 : Post g T inp consume P s1 s1' := by
                 rw [← hS]
                 split
-                · exact post_of_graph_eq c1 hap1 rfl rfl rfl rfl rfl rfl
+                · exact post_of_graph_eq c1 hap1 rfl rfl rfl rfl rfl rfl rfl
                 · exact ⟨c1, Ext.refl s1, hap1⟩
               exact Post.trans (⟨c1, c2, hap1⟩ : Post g T inp consume P s s1) (key _ _ hpost1)
         | none =>
@@ -947,7 +992,7 @@ theorem reductions_ok (hw : T.wf g = true) (consume : Bool) (P : Nat) :
               rcases hy with rfl | hy
               · exact ⟨hnh2, by rw [hnewnode.2.2]; exact htok⟩
               · exact c1.forActor y hy
-          · exact ⟨hext.size, hext.same, hext.lsize, hext.lsame⟩
+          · exact ⟨hext.size, hext.same, hext.lsize, hext.lsame, hext.crash⟩
           · constructor
             · intro y hy
               simp only [List.mem_append, List.mem_singleton] at hy
@@ -969,7 +1014,10 @@ theorem reductions_ok (hw : T.wf g = true) (consume : Bool) (P : Nat) :
       intro s head pid upd hinv hap hh hpos htok hx hupd
       simp only [doReductions]
       cases hp : g.prod? pid with
-      | none => exact post_of_graph_eq hinv hap rfl rfl rfl rfl rfl rfl
+      | none =>
+        obtain ⟨pr, hpr⟩ := prod_of_reduce hw s hinv head pid hh hx
+        rw [hp] at hpr
+        cases hpr
       | some pr =>
         simp only
         split
@@ -1005,7 +1053,7 @@ theorem reductions_ok (hw : T.wf g = true) (consume : Bool) (P : Nat) :
         have hpost0 : Post g T inp consume P s s0 := by
           rw [← hS0]
           split
-          · exact post_of_graph_eq hinv hap rfl rfl rfl rfl rfl rfl
+          · exact post_of_graph_eq hinv hap rfl rfl rfl rfl rfl rfl rfl
           · exact ⟨hinv, Ext.refl s, hap⟩
         have e0 := hpost0.2.1
         have hh0 : head < s0.nodes.size := Nat.lt_of_lt_of_le hh e0.size
@@ -1118,7 +1166,7 @@ theorem actor_ok (hw : T.wf g = true) (consume : Bool) (P fuel : Nat) (s : GStat
       | shift s' =>
         simp only
         refine Post.trans hacc ⟨hacc.1.graph_eq rfl rfl hacc.1.active hacc.1.forActor ?_ hacc.1.accepted,
-          ⟨Nat.le_refl _, fun _ _ => ⟨rfl, rfl, rfl, rfl⟩, Nat.le_refl _, fun _ _ => ⟨rfl, rfl⟩⟩, hacc.2.2⟩
+          ⟨Nat.le_refl _, fun _ _ => ⟨rfl, rfl, rfl, rfl⟩, Nat.le_refl _, fun _ _ => ⟨rfl, rfl⟩, rfl⟩, hacc.2.2⟩
         intro x hx
         simp only [List.mem_append, List.mem_singleton] at hx
         rcases hx with hx | rfl
@@ -1131,7 +1179,7 @@ theorem actor_ok (hw : T.wf g = true) (consume : Bool) (P fuel : Nat) (s : GStat
       | accept =>
         simp only
         refine Post.trans hacc ⟨hacc.1.graph_eq rfl rfl hacc.1.active hacc.1.forActor hacc.1.forShifter ?_,
-          ⟨Nat.le_refl _, fun _ _ => ⟨rfl, rfl, rfl, rfl⟩, Nat.le_refl _, fun _ _ => ⟨rfl, rfl⟩⟩, hacc.2.2⟩
+          ⟨Nat.le_refl _, fun _ _ => ⟨rfl, rfl, rfl, rfl⟩, Nat.le_refl _, fun _ _ => ⟨rfl, rfl⟩, rfl⟩, hacc.2.2⟩
         intro x hx
         simp only [List.mem_append, List.mem_singleton] at hx
         rcases hx with hx | rfl
@@ -1157,7 +1205,7 @@ theorem actorLoop_ok (hw : T.wf g = true) (consume : Bool) (P fuel : Nat) :
       have hpos := h2.2 head (by rw [hfa]; simp)
       have hp0 : Post g T inp consume P s { s with forActor := rest } := by
         refine ⟨h1.graph_eq rfl rfl h1.active ?_ h1.forShifter h1.accepted,
-          ⟨Nat.le_refl _, fun _ _ => ⟨rfl, rfl, rfl, rfl⟩, Nat.le_refl _, fun _ _ => ⟨rfl, rfl⟩⟩, ?_⟩
+          ⟨Nat.le_refl _, fun _ _ => ⟨rfl, rfl, rfl, rfl⟩, Nat.le_refl _, fun _ _ => ⟨rfl, rfl⟩, rfl⟩, ?_⟩
         · intro x hx; exact h1.forActor x (by rw [hfa]; simp [hx])
         · exact ⟨h2.1, fun x hx => h2.2 x (by rw [hfa]; simp [hx])⟩
       have hp1 := actor_ok (fuel := fuel) hw consume P { s with forActor := rest } head hp0.1 hp0.2.2 hh hpos htok
@@ -1479,9 +1527,10 @@ theorem shiftStep_ok (hw : T.wf g = true) {consume : Bool} (acc : GState) (head 
     have hsz1 : s1.nodes.size = sP.nodes.size := by rw [← hs2]
     have hact2 : s1.active = acc.active ++ [(toState, acc.nodes.size)] := by rw [← hs2]
     have hext1 : Ext acc s1 := by
-      refine ⟨by rw [hsz1]; exact p2.size, fun i hi => by rw [hnode1]; exact p2.same i hi, ?_, ?_⟩
+      refine ⟨by rw [hsz1]; exact p2.size, fun i hi => by rw [hnode1]; exact p2.same i hi, ?_, ?_, ?_⟩
       · rw [← hs2]; exact p2.lsize
       · intro i hi; rw [← hs2]; exact p2.lsame i hi
+      · rw [← hs2]; exact p2.crash
     have hrep1 : Replay g T inp (s1.node head).st (s1.node head).pos (s1.node acc.nodes.size).st
         (s1.node acc.nodes.size).pos := by
       rw [(hext1.same head hh).1, (hext1.same head hh).2.1, hnode1, p3]
@@ -1537,23 +1586,25 @@ theorem shiftStep_ok (hw : T.wf g = true) {consume : Bool} (acc : GState) (head 
 /-- `_do_shifts`. -/
 theorem doShifts_ok (hw : T.wf g = true) {consume : Bool} (s : GState) (hinv : GInv g T inp consume s) :
     GInv g T inp consume (doShifts s) ∧
-      ∃ E, ∀ x ∈ (doShifts s).active, ((doShifts s).node x.2).pos = E := by
+      (∃ E, ∀ x ∈ (doShifts s).active, ((doShifts s).node x.2).pos = E) ∧ (doShifts s).crash = s.crash := by
   rw [doShifts_eq]
   cases hl : (sortDesc s s.forShifter).getLast? with
   | none =>
     simp only
-    exact ⟨hinv.graph_eq rfl rfl (by intro x hx; cases hx) hinv.forActor (by intro x hx; cases hx) hinv.accepted,
-      0, by intro x hx; cases hx⟩
+    refine ⟨hinv.graph_eq rfl rfl (by intro x hx; cases hx) hinv.forActor (by intro x hx; cases hx) hinv.accepted,
+      ⟨0, by intro x hx; cases hx⟩, ?_⟩
+    first | rfl | trivial
   | some last =>
     simp only
     generalize hE : tokEnd s last.1 = E
     have hgen : ∀ (l : List (Nat × Nat)), (∀ y ∈ l, y ∈ s.forShifter ∧ tokEnd s y.1 = E) →
         ∀ acc, GInv g T inp consume acc → Ext s acc → (∀ x ∈ acc.active, (acc.node x.2).pos = E) → SInv acc →
           GInv g T inp consume (l.foldl shiftStep acc) ∧
-            ∀ x ∈ (l.foldl shiftStep acc).active, ((l.foldl shiftStep acc).node x.2).pos = E := by
+            (∀ x ∈ (l.foldl shiftStep acc).active, ((l.foldl shiftStep acc).node x.2).pos = E) ∧
+            (l.foldl shiftStep acc).crash = s.crash := by
       intro l
       induction l with
-      | nil => intro _ acc h1 _ h3 _; exact ⟨h1, h3⟩
+      | nil => intro _ acc h1 h2 h3 _; exact ⟨h1, h3, h2.crash⟩
       | cons y l ih =>
         intro hl' acc h1 h2 h3 h4
         simp only [List.foldl_cons]
@@ -1576,9 +1627,9 @@ theorem doShifts_ok (hw : T.wf g = true) {consume : Bool} (s : GState) (hinv : G
           intro x hx
           simp only [List.mem_filter] at hx
           exact hinv.forShifter x (mem_sortDesc s _ x hx.1)) hinv.accepted)
-      ⟨Nat.le_refl _, fun _ _ => ⟨rfl, rfl, rfl, rfl⟩, Nat.le_refl _, fun _ _ => ⟨rfl, rfl⟩⟩
+      ⟨Nat.le_refl _, fun _ _ => ⟨rfl, rfl, rfl, rfl⟩, Nat.le_refl _, fun _ _ => ⟨rfl, rfl⟩, rfl⟩
       (by intro x hx; cases hx) (by intro x hx; cases hx)
-    exact ⟨hres.1, E, hres.2⟩
+    exact ⟨hres.1, ⟨E, hres.2.1⟩, hres.2.2⟩
 
 /-! ### Lookaheads -/
 
@@ -1597,12 +1648,13 @@ structure Upd (inp : Input) (s s' : GState) : Prop where
     inp.skip (s'.node i).pos = inp.skip (s.node i).pos ∧ (∀ t, (s.node i).tok = some t → (s'.node i).tok = some t)
   src : ∀ n, n < s'.nodes.size → ∃ m, m < s.nodes.size ∧ (s'.node n).plinks = (s.node m).plinks ∧
     (s'.node n).st = (s.node m).st ∧ inp.skip (s'.node n).pos = inp.skip (s.node m).pos
+  crash : s'.crash = s.crash
 
 theorem Upd.refl (s : GState) : Upd inp s s :=
-  ⟨rfl, Nat.le_refl _, fun _ _ => ⟨rfl, rfl, fun _ h => h⟩, fun n hn => ⟨n, hn, rfl, rfl, rfl⟩⟩
+  ⟨rfl, Nat.le_refl _, fun _ _ => ⟨rfl, rfl, fun _ h => h⟩, fun n hn => ⟨n, hn, rfl, rfl, rfl⟩, rfl⟩
 
 theorem Upd.trans {a b c : GState} (h1 : Upd inp a b) (h2 : Upd inp b c) : Upd inp a c := by
-  refine ⟨h2.links.trans h1.links, Nat.le_trans h1.size h2.size, ?_, ?_⟩
+  refine ⟨h2.links.trans h1.links, Nat.le_trans h1.size h2.size, ?_, ?_, h2.crash.trans h1.crash⟩
   · intro i hi
     obtain ⟨a1, a2, a3⟩ := h1.old i hi
     obtain ⟨b1, b2, b3⟩ := h2.old i (Nat.lt_of_lt_of_le hi h1.size)
@@ -1676,7 +1728,7 @@ theorem setNode_ok {consume : Bool} (s : GState) (hinv : GInv g T inp consume s)
   have hno : ∀ i, i ≠ k → s'.node i = s.node i := by
     intro i hi; simp only [s', GState.node]; exact getD_set_ne _ _ _ _ _ hi
   have hu : Upd inp s s' := by
-    refine ⟨rfl, by rw [hsz]; exact Nat.le_refl _, ?_, ?_⟩
+    refine ⟨rfl, by rw [hsz]; exact Nat.le_refl _, ?_, ?_, rfl⟩
     · intro i _
       by_cases hik : i = k
       · subst hik; rw [hnk]; exact ⟨h1, h2, h4⟩
@@ -1706,7 +1758,7 @@ theorem pushClone_ok {consume : Bool} (s : GState) (hinv : GInv g T inp consume 
     intro i hi; simp only [s', GState.node]; exact getD_push_lt _ _ _ _ hi
   have hnodeN : s'.node s.nodes.size = x := by simp only [s', GState.node]; exact getD_push_eq _ _ _
   have hu : Upd inp s s' := by
-    refine ⟨rfl, by rw [hsz]; omega, ?_, ?_⟩
+    refine ⟨rfl, by rw [hsz]; omega, ?_, ?_, rfl⟩
     · intro i hi; rw [hnodeO i hi]; exact ⟨rfl, rfl, fun _ h => h⟩
     · intro n hn
       rw [hsz] at hn
@@ -1929,16 +1981,18 @@ theorem findLookaheads_ok (hidem : ∀ p, inp.skip (inp.skip p) = inp.skip p) {c
     (hP : inp.skip P = P) (s : GState) (hinv : GInv g T inp consume s)
     (hpos : ∀ x ∈ s.active, inp.skip (s.node x.2).pos = P) :
     GInv g T inp consume (findLookaheads T inp consume lexDis s).1 ∧
-      HeadsOK inp (findLookaheads T inp consume lexDis s).1 P (findLookaheads T inp consume lexDis s).2 := by
+      HeadsOK inp (findLookaheads T inp consume lexDis s).1 P (findLookaheads T inp consume lexDis s).2 ∧
+      (findLookaheads T inp consume lexDis s).1.crash = s.crash := by
   rw [findLookaheads_eq]
   have hgen : ∀ (l : List (Nat × Nat)), (∀ x ∈ l, x ∈ s.active) →
       ∀ acc : GState × List (Nat × List (Nat × Nat)), GInv g T inp consume acc.1 → HeadsOK inp acc.1 P acc.2 →
         Upd inp s acc.1 →
         GInv g T inp consume (l.foldl (laOuter T inp consume lexDis) acc).1 ∧
-          HeadsOK inp (l.foldl (laOuter T inp consume lexDis) acc).1 P (l.foldl (laOuter T inp consume lexDis) acc).2 := by
+          HeadsOK inp (l.foldl (laOuter T inp consume lexDis) acc).1 P (l.foldl (laOuter T inp consume lexDis) acc).2 ∧
+          (l.foldl (laOuter T inp consume lexDis) acc).1.crash = s.crash := by
     intro l
     induction l with
-    | nil => intro _ acc h1 h2 _; exact ⟨h1, h2⟩
+    | nil => intro _ acc h1 h2 h3; exact ⟨h1, h2, h3.crash⟩
     | cons x l ih =>
       intro hl acc h1 h2 h3
       simp only [List.foldl_cons]
@@ -1951,7 +2005,7 @@ theorem findLookaheads_ok (hidem : ∀ p, inp.skip (inp.skip p) = inp.skip p) {c
   exact hgen _ (fun x hx => by simpa using hx) _
     (hinv.graph_eq rfl rfl (by intro x hx; cases hx) hinv.forActor hinv.forShifter hinv.accepted)
     (by intro e he; cases he)
-    ⟨rfl, Nat.le_refl _, fun _ _ => ⟨rfl, rfl, fun _ h => h⟩, fun n hn => ⟨n, hn, rfl, rfl, rfl⟩⟩
+    ⟨rfl, Nat.le_refl _, fun _ _ => ⟨rfl, rfl, fun _ h => h⟩, fun n hn => ⟨n, hn, rfl, rfl, rfl⟩, rfl⟩
 
 /-! ### The driver loop -/
 
@@ -1961,21 +2015,25 @@ def MInv (g : Grammar) (T : Table) (inp : Input) (consume : Bool) (s : GState) :
 
 theorem frontier_ok (hw : T.wf g = true) (hidem : ∀ p, inp.skip (inp.skip p) = inp.skip p)
     {consume lexDis : Bool} (fuel : Nat) (s : GState) (h : MInv g T inp consume s) :
-    MInv g T inp consume (frontier g T inp consume lexDis fuel s) := by
+    MInv g T inp consume (frontier g T inp consume lexDis fuel s) ∧
+      (frontier g T inp consume lexDis fuel s).crash = s.crash := by
   obtain ⟨hinv, E, hE⟩ := h
   have hP : inp.skip (inp.skip E) = inp.skip E := hidem E
-  obtain ⟨q1, q2⟩ := findLookaheads_ok (lexDis := lexDis) hidem hP s hinv (fun x hx => by rw [hE x hx])
+  obtain ⟨q1, q2, q3⟩ := findLookaheads_ok (lexDis := lexDis) hidem hP s hinv (fun x hx => by rw [hE x hx])
   simp only [frontier]
-  generalize findLookaheads T inp consume lexDis s = r at q1 q2
+  generalize findLookaheads T inp consume lexDis s = r at q1 q2 q3
   obtain ⟨s1, perSym⟩ := r
-  simp only at q1 q2 ⊢
+  simp only at q1 q2 q3 ⊢
   have hgen : ∀ (l : List (Nat × List (Nat × Nat))), (∀ e ∈ l, e ∈ perSym) →
       ∀ acc, GInv g T inp consume acc → HeadsOK inp acc (inp.skip E) perSym →
         GInv g T inp consume (l.foldl (fun acc (e : Nat × List (Nat × Nat)) =>
-          actorLoop g T fuel fuel { acc with active := e.2, forActor := (e.2.map (·.2)).reverse, traversed := [] }) acc) := by
+          actorLoop g T fuel fuel { acc with active := e.2, forActor := (e.2.map (·.2)).reverse, traversed := [] }) acc) ∧
+        (l.foldl (fun acc (e : Nat × List (Nat × Nat)) =>
+          actorLoop g T fuel fuel { acc with active := e.2, forActor := (e.2.map (·.2)).reverse, traversed := [] }) acc).crash
+          = acc.crash := by
     intro l
     induction l with
-    | nil => intro _ acc h1 _; exact h1
+    | nil => intro _ acc h1 _; exact ⟨h1, rfl⟩
     | cons e l ih =>
       intro hl acc h1 h2
       simp only [List.foldl_cons]
@@ -2000,10 +2058,13 @@ theorem frontier_ok (hw : T.wf g = true) (hidem : ∀ p, inp.skip (inp.skip p) =
           obtain ⟨y, hy, rfl⟩ := hx
           exact (h2 e he y hy).2.2.1
       obtain ⟨p1, p2, _⟩ := actorLoop_ok (g := g) (T := T) (inp := inp) hw consume (inp.skip E) fuel fuel _ hinv1 hap1
-      refine ih (fun e' he' => hl e' (by simp [he'])) _ p1 (HeadsOK.ext ?_ p2)
-      exact h2
-  have h2 := hgen perSym.reverse (fun e he => by simpa using he) s1 q1 q2
-  exact doShifts_ok hw _ h2
+      have h2' : HeadsOK inp { acc with active := e.2, forActor := (e.2.map (·.2)).reverse, traversed := [] }
+          (inp.skip E) perSym := h2
+      obtain ⟨r1, r2⟩ := ih (fun e' he' => hl e' (by simp [he'])) _ p1 (HeadsOK.ext h2' p2)
+      exact ⟨r1, r2.trans p2.crash⟩
+  obtain ⟨h2, h3⟩ := hgen perSym.reverse (fun e he => by simpa using he) s1 q1 q2
+  obtain ⟨d1, d2, d3⟩ := doShifts_ok hw _ h2
+  exact ⟨⟨d1, d2⟩, d3.trans (h3.trans q3)⟩
 
 theorem mainLoop_ok (hw : T.wf g = true) (hidem : ∀ p, inp.skip (inp.skip p) = inp.skip p)
     {consume lexDis : Bool} (fuel : Nat) :
@@ -2027,7 +2088,25 @@ theorem mainLoop_ok (hw : T.wf g = true) (hidem : ∀ p, inp.skip (inp.skip p) =
             simp only [Result.forest.injEq] at h
             subst h
             exact ⟨hs.1, by intro he; rw [he] at hne; simp at hne⟩
-        · exact ih _ sF (frontier_ok hw hidem fuel s hs) h
+        · exact ih _ sF (frontier_ok hw hidem fuel s hs).1 h
+
+/-- The driver never meets a missing goto or an unknown production. -/
+theorem mainLoop_nocrash (hw : T.wf g = true) (hidem : ∀ p, inp.skip (inp.skip p) = inp.skip p)
+    {consume lexDis : Bool} (fuel : Nat) :
+    ∀ (n : Nat) (s : GState), MInv g T inp consume s → s.crash = false →
+      mainLoop g T inp consume lexDis fuel n s ≠ .crash := by
+  intro n
+  induction n with
+  | zero => intro s _ _ h; simp [mainLoop] at h
+  | succ n ih =>
+    intro s hs hc h
+    simp only [mainLoop, hc, Bool.false_eq_true, if_false] at h
+    split at h
+    · cases h
+    · split at h
+      · split at h <;> cases h
+      · obtain ⟨f1, f2⟩ := frontier_ok (lexDis := lexDis) hw hidem fuel s hs
+        exact ih _ f1 (f2.trans hc) h
 
 /-- An accepted head carries a derivation tree of the start symbol over the input read. -/
 theorem accepted_sound (hw : T.wf g = true) {consume : Bool} (s : GState) (hinv : GInv g T inp consume s)
@@ -2059,13 +2138,9 @@ theorem accepted_sound (hw : T.wf g = true) {consume : Bool} (s : GState) (hinv 
     rw [hsym] at hd
     exact ⟨t1, r, hd, fun hc => by rw [hskip, ← b1]; exact b3 hstop hc⟩
 
-/-- The final state of an accepting run satisfies the invariant and has an accepted head. -/
-theorem parseGLR_inv' (hw : T.wf g = true) (hidem : ∀ p, inp.skip (inp.skip p) = inp.skip p)
-    (consume lexDis : Bool) (fuel : Nat) (sF : GState)
-    (h : parseGLR g T inp consume lexDis fuel = .forest sF) :
-    GInv g T inp consume sF ∧ sF.accepted ≠ [] := by
-  unfold parseGLR at h
-  have hinit : MInv g T inp consume { nodes := #[{ st := 0, fr := 0, pos := 0 }], active := [(0, 0)] } := by
+/-- The initial state satisfies the invariant. -/
+theorem minv_init {consume : Bool} :
+    MInv g T inp consume { nodes := #[{ st := 0, fr := 0, pos := 0 }], active := [(0, 0)] } := by
     refine ⟨⟨?_, ?_, ?_, ?_, ?_, ?_, ?_, by intro i hi; simp at hi⟩, 0, ?_⟩
     · intro i hi
       have : i = 0 := by simpa using hi
@@ -2087,7 +2162,22 @@ theorem parseGLR_inv' (hw : T.wf g = true) (hidem : ∀ p, inp.skip (inp.skip p)
       simp only [List.mem_singleton] at hx
       subst hx
       rfl
-  exact mainLoop_ok hw hidem fuel fuel _ sF hinit h
+
+/-- The final state of an accepting run satisfies the invariant and has an accepted head. -/
+theorem parseGLR_inv' (hw : T.wf g = true) (hidem : ∀ p, inp.skip (inp.skip p) = inp.skip p)
+    (consume lexDis : Bool) (fuel : Nat) (sF : GState)
+    (h : parseGLR g T inp consume lexDis fuel = .forest sF) :
+    GInv g T inp consume sF ∧ sF.accepted ≠ [] := by
+  unfold parseGLR at h
+  exact mainLoop_ok hw hidem fuel fuel _ sF minv_init h
+
+/-- **The GLR driver model never fails internally**: over a well-formed table it never meets a
+reduction by an unknown production or a missing goto (the lookups that would raise in `glr.py`),
+whatever the input, the lexical mode and the fuel. -/
+theorem parseGLR_nocrash (hw : T.wf g = true) (hidem : ∀ p, inp.skip (inp.skip p) = inp.skip p)
+    (consume lexDis : Bool) (fuel : Nat) : parseGLR g T inp consume lexDis fuel ≠ .crash := by
+  unfold parseGLR
+  exact mainLoop_nocrash hw hidem fuel fuel _ minv_init rfl
 
 theorem parseGLR_inv (hw : T.wf g = true) (hidem : ∀ p, inp.skip (inp.skip p) = inp.skip p)
     (consume lexDis : Bool) (fuel : Nat) (sF : GState)
